@@ -277,7 +277,12 @@ func NewFont(ld *ot.Loader) (*Font, error) {
 
 		raw, _ = ld.RawTable(ot.MustNewTag("gvar"))
 		gvar, _, _ := tables.ParseGvar(raw)
-		out.gvar, _ = newGvar(gvar, out.glyf)
+		// the tuples have the length announced by 'gvar' and are evaluated against
+		// coordinates with the length announced by 'fvar': ignore the table on mismatch,
+		// as harfbuzz does
+		if gvar.AxisCount() == axisCount {
+			out.gvar, _ = newGvar(gvar, out.glyf)
+		}
 
 		raw, _ = ld.RawTable(ot.MustNewTag("HVAR"))
 		hvar, _, err := tables.ParseHVAR(raw)
